@@ -238,11 +238,34 @@ class SimStreamWriter(asyncio.StreamWriter):
         await super().drain()
 
 
-class Sim:
-    """One simulated world: loop + gateway + one client + trace."""
+import contextvars as _cv
 
-    def __init__(self, loop: vloop.VirtualLoop, kind: str, client_kwargs=None, status_cb="ok", recv_cb="ok"):
+_OWNER = _cv.ContextVar("vf_sim_owner", default="main")
+
+
+class _Quiet:
+    """What the bystander's transport sees instead of the Sim: same loop, no trace."""
+
+    def __init__(self, sim):
+        self.loop = sim.loop
+
+    def ev(self, *a, **k):
+        pass
+
+
+class Sim:
+    """One simulated world: loop + gateway + one client + trace. Optionally a second, untouched client of the same
+    type lives in the same process and loop (the bystander): whatever happens to the first one, the bystander must
+    stay connected on its own link and receive exactly what its gateway sends."""
+
+    def __init__(self, loop: vloop.VirtualLoop, kind: str, client_kwargs=None, status_cb="ok", recv_cb="ok", bystander=False):
         from collections import Counter
+        self.with_bystander = bystander
+        self.by_client = None
+        self.by_conns: list = []
+        self.by_received: list = []
+        self.by_status: list = []
+        self.bystander = None
         self.loop = loop
         self.kind = kind
         self.trace: list = []
@@ -283,6 +306,24 @@ class Sim:
         self.client = c
         c.set_receive_callback(self._on_receive)
         c.set_status_callback(self._on_status)
+        if self.with_bystander:
+            if self.kind == "ebyte":
+                b = EByteNmea2000Gateway("sim-gateway-2", 8882)
+            elif self.kind == "actisense":
+                b = ActisenseNmea2000Gateway("sim-gateway-2", 8882)
+            elif self.kind == "yd":
+                b = YachtDevicesNmea2000Gateway("sim-gateway-2", 8882)
+            else:
+                b = WaveShareNmea2000Gateway("/dev/sim-serial-2")
+            self.by_client = b
+
+            async def by_recv(msg):
+                self.by_received.append(msg.source)
+
+            async def by_status(state):
+                self.by_status.append(state.name)
+            b.set_receive_callback(by_recv)
+            b.set_status_callback(by_status)
         self.loop.step_observers.append(self._sample_state)
         self._sample_state(self.loop)
         return c
@@ -350,8 +391,38 @@ class Sim:
             await self.call(name, *args)
 
     # --- the patched connection factories -----------------------------------------------------------
+    async def _by_connect(self):
+        _OWNER.set("bystander")
+        with contextlib.suppress(Exception):
+            await self.by_client.connect()
+
+    async def bystander_epilogue(self):
+        from .checks.c13 import packet
+        if self.by_conns and not self.by_conns[-1].lost and not self.by_conns[-1].closing:
+            self.by_conns[-1].feed(packet(self.kind, 241))
+        await asyncio.sleep(0.5)
+        self.bystander = {"received_sources": list(self.by_received), "status": list(self.by_status), "state": self.by_client.state.name,
+                          "connections": len(self.by_conns), "link_open": bool(self.by_conns) and not self.by_conns[-1].lost and not self.by_conns[-1].closing}
+        with contextlib.suppress(Exception):
+            await self.by_client.close()
+        await asyncio.sleep(0.1)
+
     async def _open(self, serial_like):
         loop = self.loop
+        if _OWNER.get() == "bystander":
+            from .checks.c13 import packet
+            await asyncio.sleep(0.001)
+            q = _Quiet(self)
+            cid = 1000 + len(self.by_conns)
+            reader = asyncio.StreamReader(limit=2 ** 16, loop=loop)
+            protocol = asyncio.StreamReaderProtocol(reader, loop=loop)
+            tr = SimTransport(q, cid, serial_like)
+            tr.protocol = protocol
+            protocol.connection_made(tr)
+            writer = SimStreamWriter(tr, protocol, reader, loop)
+            self.by_conns.append(tr)
+            loop.call_later(0.05, lambda: (not tr.lost and not tr.closing) and tr.feed(packet(self.kind, 240)))
+            return reader, writer
         att = {"start_step": loop.steps, "start": loop.time() - 1000.0, "outcome": None, "end": None}
         self.attempts.append(att)
         self.ev("attempt", n=len(self.attempts))
@@ -421,20 +492,35 @@ def serial_loss_exception():
     return serial.SerialException("device reports readiness to read but returned no data (device disconnected?)")
 
 
-def run_session(kind, scenario, client_kwargs=None, status_cb="ok", recv_cb="ok", max_steps=100_000):
+def judge_bystander(sim, acc, w):
+    """The untouched second client: connected once, on one link that is still open, both of its frames delivered."""
+    b = getattr(sim, "bystander", None)
+    if b is None:
+        return
+    acc.count("bystander_clients_checked")
+    if b["received_sources"] != [240, 241] or b["status"] != ["CONNECTED"] or b["state"] != "CONNECTED" or b["connections"] != 1 or not b["link_open"]:
+        acc.violation("bystander-client-disturbed", f"a second, untouched client in the same process: received {b['received_sources']} (sent 240, 241), status {b['status']}, "
+                      f"state {b['state']}, {b['connections']} connection(s), link open: {b['link_open']}", dict(w, bystander=b))
+
+
+def run_session(kind, scenario, client_kwargs=None, status_cb="ok", recv_cb="ok", max_steps=100_000, bystander=False):
     """scenario: async def scenario(sim) run inside the virtual loop with the factories patched.
     Returns (sim, stats)."""
     box = {}
 
     async def main(loop):
-        sim = Sim(loop, kind, client_kwargs, status_cb, recv_cb)
+        sim = Sim(loop, kind, client_kwargs, status_cb, recv_cb, bystander)
         box["sim"] = sim
         with sim.patched():
             sim.make_client()
             hb = loop.create_task(sim.heartbeat())
             box["hb"] = hb
+            if bystander:
+                loop.create_task(sim._by_connect())
             try:
                 await scenario(sim)
+                if bystander:
+                    await sim.bystander_epilogue()
             finally:
                 box["pending"] = [t for t in sim.pending_client_tasks(exclude=(hb, asyncio.current_task()))]
                 box["pending_names"] = [repr(t.get_coro())[:120] for t in box["pending"]]
